@@ -57,6 +57,9 @@ CHECKS = {
  'C06': dict(level='exploration', tech='sanitizers + runtime monitor: every call runs in its own interpreter on a clang ASan+UBSan build of the generated C; exit status, sanitizer log, returned object, bit snapshots of the inputs, RLIMIT_CPU step-budget clock and a ctypes/ASan use-after-free probe (valgrind memcheck in the thorough tier) are the observations',
              text='Enumerates every layer stack of 1-2 (thorough: 1-3) layers including liquid surface layers with both nondimensionalize values, one case per argument fault (about 110 faults), random pairwise fault combinations and result-lifetime probes; the failure protocol (success=False => message, no numeric result, raise_on_fail raises) and input preservation are checked on every exit path.',
              note='CPython, numpy, LAPACK and CyRK are uninstrumented. "Never hangs" is decided as bounded progress: explicit step budgets <= 1000 may use at most 60 s CPU (>1e4 x slack); wall-clock watchdogs are inconclusive. Seven open known findings (all in .pyx / CyRK).', ref='4/C06'),
+ 'C13': dict(level='exploration', tech='runtime monitor: history recorder at the public world/orbit API with a reference-model differential oracle (fresh world placed in the final state + functional API), compared after every step',
+             text='Random histories of length 1-12 over 24 operation kinds (orbit and world setters, batched set_state subsets, property assignment, fixed-Q/dt, layer temperature, time; by instance, name or index; scalars and arrays) on five world kinds (CPL, CPL spin-synchronous, CTL, layered Maxwell, layered Andrade); the first diverging step names the culprit operation kind.',
+             note='Agreement demanded to 1e-10 relative on heating, Love numbers, potential derivatives, tidal frequencies, per-layer heating and orbital/spin derivatives. BurnMan worlds are not covered (package absent).', ref='4/C13'),
 }
 NA = []
 def main():
